@@ -420,3 +420,68 @@ Proof. unfold iter_notes. apply iter_notes_go_cursor_free. Qed.
 Theorem stabs_cursor_free c img adv adv' sh :
   StabSection_iter_stabs c img adv sh = StabSection_iter_stabs c img adv' sh.
 Proof. unfold StabSection_iter_stabs. apply iter_stabs_go_cursor_free. Qed.
+
+(* ================================================================== adjacent extents, one file *)
+(* the usual linker layout: several note sections one after the other and a PT_NOTE segment that
+   spans them (same start as the first section, larger size) *)
+Lemma encode_notes_app sc a b : encode_notes sc (a ++ b) = encode_notes sc a ++ encode_notes sc b.
+Proof. unfold encode_notes. rewrite map_app, concat_app. reflexivity. Qed.
+
+Lemma wf_notes_app sc a b : wf_notes sc (a ++ b) = wf_notes sc a && wf_notes sc b.
+Proof. unfold wf_notes. apply forallb_app. Qed.
+
+Lemma expected_notes_app c off a b : wf_notes (scfg_of c) a = true ->
+  expected_notes (scfg_of c) off (a ++ b)
+  = expected_notes (scfg_of c) off a ++ expected_notes (scfg_of c) (off + zlen (encode_notes (scfg_of c) a)) b.
+Proof.
+  revert off. induction a as [|n a IH]; intros off Hwf.
+  - cbn [app expected_notes encode_notes map concat]. change (zlen (@nil Z)) with 0. rewrite Z.add_0_r. reflexivity.
+  - unfold wf_notes in Hwf. cbn [forallb] in Hwf. apply andb_prop in Hwf. destruct Hwf as [Hn Ha].
+    cbn [app expected_notes]. rewrite (IH _ Ha). unfold encode_notes. cbn [map concat].
+    fold (encode_notes (scfg_of c) a). rewrite zlen_app, (zlen_encode_note c n Hn).
+    rewrite Z.add_assoc. reflexivity.
+Qed.
+
+(* a sub-extent [ns2] of a longer note table [ns1 ++ ns2 ++ ns3] (a section inside the segment):
+   walking it yields exactly its own notes, at their offsets in the file *)
+Theorem sub_extent_exact c adv ns1 ns2 ns3 (pre tail : list Z) :
+  wf_cfg c = true -> wf_notes (scfg_of c) ns2 = true ->
+  iter_notes c (pre ++ encode_notes (scfg_of c) (ns1 ++ ns2 ++ ns3) ++ tail) adv
+    (zlen pre + zlen (encode_notes (scfg_of c) ns1)) (zlen (encode_notes (scfg_of c) ns2))
+  = (expected_notes (scfg_of c) (zlen pre + zlen (encode_notes (scfg_of c) ns1)) ns2, None).
+Proof.
+  intros Hc H2. rewrite !encode_notes_app. rewrite <- zlen_app.
+  replace (pre ++ (encode_notes (scfg_of c) ns1 ++ encode_notes (scfg_of c) ns2 ++ encode_notes (scfg_of c) ns3) ++ tail)
+    with ((pre ++ encode_notes (scfg_of c) ns1) ++ encode_notes (scfg_of c) ns2 ++ (encode_notes (scfg_of c) ns3 ++ tail))
+    by (rewrite <- !app_assoc; reflexivity).
+  apply notes_exact; assumption.
+Qed.
+
+(* the spanning extent yields the concatenation of what its parts yield *)
+Theorem spanning_extent_concat c adv adv1 adv2 adv3 ns1 ns2 ns3 (pre tail : list Z) :
+  wf_cfg c = true -> wf_notes (scfg_of c) ns1 = true -> wf_notes (scfg_of c) ns2 = true ->
+  wf_notes (scfg_of c) ns3 = true ->
+  let sc := scfg_of c in
+  let img := pre ++ encode_notes sc (ns1 ++ ns2 ++ ns3) ++ tail in
+  let o1 := zlen pre in
+  let o2 := o1 + zlen (encode_notes sc ns1) in
+  let o3 := o2 + zlen (encode_notes sc ns2) in
+  fst (iter_notes c img adv o1 (zlen (encode_notes sc (ns1 ++ ns2 ++ ns3))))
+  = fst (iter_notes c img adv1 o1 (zlen (encode_notes sc ns1))) ++
+    fst (iter_notes c img adv2 o2 (zlen (encode_notes sc ns2))) ++
+    fst (iter_notes c img adv3 o3 (zlen (encode_notes sc ns3))) /\
+  snd (iter_notes c img adv o1 (zlen (encode_notes sc (ns1 ++ ns2 ++ ns3)))) = None.
+Proof.
+  intros Hc H1 H2 H3. cbv zeta.
+  assert (Hall : wf_notes (scfg_of c) (ns1 ++ ns2 ++ ns3) = true).
+  { rewrite !wf_notes_app, H1, H2, H3. reflexivity. }
+  rewrite (notes_exact c adv _ pre tail Hc Hall).
+  pose proof (sub_extent_exact c adv1 [] ns1 (ns2 ++ ns3) pre tail Hc H1) as E1.
+  pose proof (sub_extent_exact c adv2 ns1 ns2 ns3 pre tail Hc H2) as E2.
+  pose proof (sub_extent_exact c adv3 (ns1 ++ ns2) ns3 [] pre tail Hc H3) as E3.
+  cbn [app] in E1. change (encode_notes (scfg_of c) []) with (@nil Z) in E1.
+  change (zlen (@nil Z)) with 0 in E1. rewrite Z.add_0_r in E1.
+  rewrite app_nil_r, <- app_assoc in E3. rewrite (encode_notes_app _ ns1 ns2), zlen_app, Z.add_assoc in E3.
+  rewrite E1, E2, E3. cbn [fst snd]. split; [|reflexivity].
+  rewrite (expected_notes_app c _ ns1 _ H1), (expected_notes_app c _ ns2 _ H2). reflexivity.
+Qed.
